@@ -21,7 +21,7 @@
  */
 #define C03_P "C03.meta.append"
 #include <stddef.h>
-size_t g_ap_total, g_ap_size0, g_ap_blocks, g_ap_copied;
+size_t g_ap_total, g_ap_size0, g_ap_blocks, g_ap_copied, g_ap_pos0;
 const void *g_ap_data0;
 unsigned g_ap_faults;
 _Bool g_ap_ok;
@@ -94,6 +94,7 @@ void harness(void)
 	g_m.block_offset = pos0 = verif_nd_size("block_offset");
 	VERIF_ASSUME(pos0 <= ((size_t)1 << 48));
 	g_ap_size0 = size;
+	g_ap_pos0 = pos0;
 	g_ap_total = off0 + size;
 	g_ap_data0 = data;
 
